@@ -9,6 +9,7 @@ import (
 
 	"verifharness/internal/c17"
 	"verifharness/internal/pc"
+	"verifharness/internal/rcv"
 	"verifharness/internal/rep"
 )
 
@@ -16,6 +17,7 @@ var commands = map[string]func(args []string) *rep.Report{
 	"c17": c17.Run,
 	"c06": pc.Run,
 	"c07": pc.RunReaders,
+	"c09": rcv.Run,
 }
 
 func main() {
